@@ -56,7 +56,7 @@ def prepared(ctx):
     if len(cases) < 1000:
         raise vlib.ToolError("export of the Cro model yielded only %d (state, reaction) pairs" % len(cases))
     ops = {c["act"]["op"] for c in cases}
-    if ops != {"init", "on_wall", "decompose", "intermolecular", "synthesis"}:
+    if ops != {"init", "scoped_init", "on_wall", "decompose", "intermolecular", "synthesis"}:
         raise vlib.ToolError("vacuous export: reactions %s" % sorted(ops))
     if q:
         cases = cases[ctx.seed % 3::3]
